@@ -340,6 +340,18 @@ func (s *sys) sameFile(a, b string) bool {
 func (s *sys) operands(c fsx.Call, ti *fsx.TreeIndex, cwd string) string {
 	cl := func(p string) string {
 		r := ti.Class(s.abs(p, cwd))
+		if r == "missing(parent missing)" {
+			// more than one element is missing: what the nearest existing ancestor
+			// is decides what the kernel answers, so it names the class
+			// (as Class does for a path one element below a file or a link)
+			switch anc, t, _ := nearest(ti, s.abs(p, cwd)); t {
+			case "f":
+				r = "below-file"
+			case "l":
+				r = "below-" + ti.Class(anc)
+			}
+		}
+
 		if p != "" && !strings.HasPrefix(p, "/") {
 			r = "rel:" + r
 		}
@@ -357,6 +369,34 @@ func (s *sys) operands(c fsx.Call, ti *fsx.TreeIndex, cwd string) string {
 	}
 
 	return cl(c.A)
+}
+
+// nearest returns the nearest ancestor of p (lexically) that exists in the
+// kernel tree, its type and the number of elements of p below it.
+func nearest(ti *fsx.TreeIndex, p string) (anc, typ string, tail int) {
+	for anc = p; anc != "/" && anc != "." && anc != ""; tail++ {
+		if t, ok := ti.Typ[anc]; ok {
+			return anc, t, tail
+		}
+
+		anc = filepath.Dir(anc)
+	}
+
+	return anc, "", tail
+}
+
+// shallower cuts p to two elements below its nearest existing ancestor; ok is
+// false unless p is deeper than that and the ancestor is a directory or a file.
+func shallower(ti *fsx.TreeIndex, p string) (q string, ok bool) {
+	anc, typ, tail := nearest(ti, p)
+	// (below a link the elements are missing in the spelling only)
+	if (typ != "d" && typ != "f") || tail < 3 {
+		return p, false
+	}
+
+	el := strings.Split(strings.TrimPrefix(p, anc+"/"), "/")
+
+	return anc + "/" + el[0] + "/" + el[1], true
 }
 
 func targetClass(t, root string) string {
@@ -487,6 +527,36 @@ func (s *sys) Step(op int) bfs.StepResult {
 	}
 
 	s.diff = nd
+
+	// Depth invariance (an oracle that needs no kernel). When two or more
+	// elements of a path are missing below its nearest existing ancestor, no
+	// call can succeed and what it answers depends on that ancestor alone: a
+	// third, fourth ... missing element changes nothing. So a refused call on
+	// such a path is repeated, on the emulation only, with the path cut to two
+	// missing elements, and must be refused in the same way. This judges the
+	// emulation against itself and so also where a listed finding accepts its
+	// answer as it is (OrefaFS answers ENOENT below a file for most calls: a
+	// call that tells the two apart must do so at every depth).
+	if rk.Kind != "ok" && rv.Kind != "ok" && s.key == keyBefore && !structural {
+		c2, cut := c, false
+
+		if q, ok := shallower(ti, s.abs(c.A, cwdBefore)); ok && c.Op != "Symlink" {
+			c2.A, cut = q, true
+		}
+
+		if q, ok := shallower(ti, s.abs(c.B, cwdBefore)); ok && (c.Op == "Rename" || c.Op == "Link" || c.Op == "Symlink") {
+			c2.B, cut = q, true
+		}
+
+		if cut {
+			if r2 := fsx.Do(s.v, c2); r2.Kind != rv.Kind {
+				viols = append(viols, bfs.Viol{
+					Sig:    sig("kind", "depth", "avfs-shallow", r2.Kind),
+					Detail: detail + " || same call on the emulation with the missing tail cut to two elements, " + strings.ReplaceAll(c2.String(), s.R, "R") + ": " + r2.Kind,
+				})
+			}
+		}
+	}
 
 	poisoned := rv.Kind == "PANIC" || rv.Kind == "DEADLOCK"
 
@@ -622,13 +692,29 @@ func buildOps(fsName, R, tier string) []fsx.Call {
 			fsx.Call{Op: "Truncate", A: p, N: 7},
 			fsx.Call{Op: "Truncate", A: p, N: -1},
 			fsx.Call{Op: "Chmod", A: p, Perm: 0o600},
-			fsx.Call{Op: "Chmod", A: p, Perm: 0o1777},
 			// a mode argument is ANY fs.FileMode, e.g. one copied from Stat of
 			// another node: os.Chmod, os.Mkdir and os.WriteFile use its permission
 			// and special bits only. Each call gets a type bit foreign to the node
 			// it acts on or makes (same permission bits as the plain call, so the
 			// kernel reaches no further state).
 			fsx.Call{Op: "Chmod", A: p, Perm: 0o600, Mode: uint32(fs.ModeDir)},
+			// A mode is twelve bits, and "nothing to do" is a statement about all of
+			// them: code that compares the rwx bits of the node with those of the
+			// argument (Mode().Perm()) to skip or to shortcut the change sees no
+			// difference between 0600 and 05600. So the alphabet holds a pair of
+			// modes that differ ONLY in the special bits, reachable in both orders
+			// (0600 -> 05600 sets them, 05600 -> 0600 clears them; the same mode
+			// twice is the equal case), by path and through a handle (File.Chmod is
+			// other code than Chmod): the bits of the node after the call are
+			// compared with the kernel's as everywhere. setuid and sticky only:
+			// setgid on a directory changes what later calls create below it.
+			// (05600 took the place of 01777 in the quick tier - a change of the
+			// rwx bits together with special ones is 0644 -> 05600 - so that the
+			// number of modes a node can have, and with it the number of states,
+			// stayed what it was.)
+			fsx.Call{Op: "Chmod", A: p, Perm: specialOnly},
+			fsx.Call{Op: "FChmod", A: p, Perm: 0o600},
+			fsx.Call{Op: "FChmod", A: p, Perm: specialOnly},
 			fsx.Call{Op: "Mkdir", A: p, Perm: 0o755, Mode: uint32(fs.ModeSymlink)},
 			fsx.Call{Op: "WriteFile", A: p, Data: "hello", Perm: 0o644, Mode: uint32(fs.ModeDir)},
 		)
@@ -637,6 +723,10 @@ func buildOps(fsName, R, tier string) []fsx.Call {
 			ops = append(ops,
 				fsx.Call{Op: "Chmod", A: p, Perm: 0o600, Mode: uint32(fs.ModeSymlink)},
 				fsx.Call{Op: "Chmod", A: p, Perm: 0o600, Mode: uint32(fs.ModeType | fs.ModeAppend | fs.ModeExclusive | fs.ModeTemporary)},
+				// the other pair that differs in a special bit only: 01777 <-> 0777
+				fsx.Call{Op: "Chmod", A: p, Perm: 0o1777},
+				fsx.Call{Op: "Chmod", A: p, Perm: 0o777},
+				fsx.Call{Op: "FChmod", A: p, Perm: 0o1777},
 				fsx.Call{Op: "MkdirAll", A: p, Perm: 0o750, Mode: uint32(fs.ModeNamedPipe)},
 			)
 		}
@@ -680,6 +770,54 @@ func buildOps(fsName, R, tier string) []fsx.Call {
 		single(p)
 	}
 
+	// Deep tails. A call on a path whose directory is missing must still tell
+	// "a directory is missing" (ENOENT) from "something on the way is no
+	// directory" (ENOTDIR), and what decides is the NEAREST EXISTING ancestor,
+	// however far up it is: code that looks at the parent, or at the parent and
+	// the grandparent, instead of walking up (or down) is right on every path of
+	// the alphabet above, where at most one element is missing below any node
+	// that can exist. So a few paths run 2, 3 and 4 elements below each depth at
+	// which the histories can put a file, a link or nothing, and the calls that
+	// resolve a path get them - one of each family (Open, Create, ReadFile and
+	// CreateTemp go through OpenFile, Readlink and Lchown walk as Lstat and
+	// Chown do) and one variant of each: the variants differ in what happens
+	// at the END of the path, which is not reached here unless
+	// a call of the alphabet built the whole chain: MkdirAll does, in the
+	// thorough tier; in the quick tier the chains never exist - each one that
+	// can multiplies the states - and MkdirAll is not among the calls).
+	for _, p := range deepPaths(R, tier) {
+		if tier == "thorough" {
+			ops = append(ops, fsx.Call{Op: "MkdirAll", A: p, Perm: 0o750})
+		}
+
+		ops = append(ops,
+			fsx.Call{Op: "Mkdir", A: p, Perm: 0o755},
+			fsx.Call{Op: "Remove", A: p},
+			fsx.Call{Op: "RemoveAll", A: p},
+			fsx.Call{Op: "WriteFile", A: p, Data: "hello", Perm: 0o644},
+			fsx.Call{Op: "Truncate", A: p, N: 0},
+			fsx.Call{Op: "Chmod", A: p, Perm: 0o600},
+			fsx.Call{Op: "Chtimes", A: p, N: 7},
+			fsx.Call{Op: "Chdir", A: p},
+			fsx.Call{Op: "Stat", A: p},
+			fsx.Call{Op: "Lstat", A: p},
+			fsx.Call{Op: "ReadDir", A: p},
+			fsx.Call{Op: "MkdirTemp", A: p, B: "t*"},
+			fsx.Call{Op: "OpenFile", A: p, Flag: os.O_RDWR | os.O_CREATE, Perm: 0o640},
+			fsx.Call{Op: "Rename", A: p, B: R + "/ab"},
+			fsx.Call{Op: "Rename", A: R + "/ab", B: p},
+			fsx.Call{Op: "Link", A: R + "/ab", B: p},
+		)
+
+		if fsName == "MemFS" {
+			ops = append(ops,
+				fsx.Call{Op: "Chown", A: p, N: 1001, M: 1002},
+				fsx.Call{Op: "EvalSymlinks", A: p},
+				fsx.Call{Op: "Symlink", A: "a", B: p},
+			)
+		}
+	}
+
 	for _, p := range withRoot {
 		for _, q := range withRoot {
 			ops = append(ops, fsx.Call{Op: "Rename", A: p, B: q}, fsx.Call{Op: "Link", A: p, B: q})
@@ -700,6 +838,22 @@ func buildOps(fsName, R, tier string) []fsx.Call {
 	}
 
 	return ops
+}
+
+// specialOnly differs from the mode 0600 of the alphabet in special bits only.
+const specialOnly = 0o5600
+
+// deepPaths: tails of 2, 3 (and 4) elements below R/ab and of 3 (and 4) below
+// R/a/a - the two names of the file of the start tree, and names every history
+// can give to a file, a directory, a link or nothing.
+func deepPaths(R, tier string) []string {
+	d := []string{R + "/ab/a/ab", R + "/ab/a/ab/a", R + "/a/a/ab/a/ab"}
+
+	if tier == "thorough" {
+		d = append(d, R+"/a/a/ab/a", R+"/ab/a/ab/a/c", R+"/a/a/ab/a/ab/c", R+"/c/a/ab/a")
+	}
+
+	return d
 }
 
 // Strings are bytes. Names and link targets are whatever bytes the caller
@@ -862,7 +1016,7 @@ func main() {
 		Coverage: map[string]any{
 			"states": states, "transitions": trans, "traces_validated_against_impl": trans,
 			"evaluations": trans, "distinct_nontrivial": len(outcomes),
-			"rule":       "every history of length <= bound over the call alphabet executed on a fresh emulated file system and, in lock-step, through OsFS on a fresh tmpfs directory at the same absolute path; Chmod, Mkdir and WriteFile (thorough: MkdirAll too) also with a mode argument that carries file type bits, which package os ignores; names and link targets are bytes: one dangling link target whose length in bytes, in runes and in UTF-16 units differ (thorough: also one that is not UTF-8) and the fixed part of a MkdirTemp pattern with a multi-byte character and a byte that is not UTF-8, so that sizes of links, listed names and Readlink values are compared with the kernel on non-ASCII strings; distinct_nontrivial = distinct (call, kernel outcome) classes observed",
+			"rule":       "every history of length <= bound over the call alphabet executed on a fresh emulated file system and, in lock-step, through OsFS on a fresh tmpfs directory at the same absolute path; Chmod, Mkdir and WriteFile (thorough: MkdirAll too) also with a mode argument that carries file type bits, which package os ignores; Chmod by path and through a handle (File.Chmod) with a pair of modes that differ in the special bits only (0600 and 05600, in both orders and each twice; thorough: also 01777 and 0777); deep tails: paths of 3 to 5 (thorough: to 6) elements, up to 3 (4) of them missing below any file, link or directory the histories can make, given to one variant of one call of every family that resolves a path (Mkdir, Remove, RemoveAll, WriteFile, Truncate, Chmod, Chtimes, Chdir, Stat, Lstat, ReadDir, MkdirTemp, OpenFile, Rename in both places, Link as new name; MemFS: Chown, EvalSymlinks, Symlink as new name; thorough: MkdirAll), with the answer of a refused call also compared, on the emulation alone, with the answer for the same path cut to two missing elements (depth invariance); names and link targets are bytes: one dangling link target whose length in bytes, in runes and in UTF-16 units differ (thorough: also one that is not UTF-8) and the fixed part of a MkdirTemp pattern with a multi-byte character and a byte that is not UTF-8, so that sizes of links, listed names and Readlink values are compared with the kernel on non-ASCII strings; distinct_nontrivial = distinct (call, kernel outcome) classes observed",
 			"samples":    samples,
 			"exhaustive": exh, "bound": fmt.Sprintf("histories of length <= %d (completed %d)", d, depthDone),
 			"systems": all, "known_findings_matched": rep.KnownMatched(),
@@ -871,6 +1025,7 @@ func main() {
 			"oracle = Linux kernel, tmpfs, root; directory size and directory link count are not compared (they differ between Linux file systems)",
 			"state identity = kernel-side tree dump + cwd (never depends on the code under test)",
 			"long random histories (clause ii of the quantifier) are sampling and are not run; replaced by the exhaustive bound",
+			"deep tails: a fixed set of paths (quick 3, thorough 7), not every path of that length; MkdirAll on them in the thorough tier only (each chain that can exist multiplies the states: in the quick tier the deep paths never exist, the calls on them are judged on how they are refused); special bits of a mode: setuid and sticky (setgid on a directory changes what is created below it and is not in the alphabet)",
 			"symlink calls only on MemFS (OrefaFS does not advertise FeatSymlink)",
 			"non-ASCII strings: one link target (MemFS) and one temporary directory name per tier hold multi-byte and (name; thorough: target too) invalid UTF-8 bytes; the names a, ab (c) of the path alphabet stay ASCII",
 		},
